@@ -344,9 +344,20 @@ def gen_http(r):
     n = r.choice([1, 1, 1, 2, 3, 6])
     ex = []
     hostile_any = False
+    # a server that fills the cookie jar (the jar's per-domain limits are policy code of wpull's own) and then sets one more cookie
+    flood = r.randrange(12) == 0
+    if flood:
+        n = r.choice([2, 3])
     for k in range(n):
         status = r.choice([301, 302, 307, 308, 401]) if k < n - 1 else None
-        msg, h = http_response(r, status)
+        extra = ()
+        if flood:
+            if k == 0:
+                extra = [b'Set-Cookie: c%d=v%d; Path=%s' % (j, j, r.choice([b'/', b'/', b'/dir'])) for j in range(r.choice([49, 50, 55, 120]))]
+            else:
+                extra = [b'Set-Cookie: ' + r.choice([b'late=1', b'late=1; Path=/new/place', b'c3=again; Path=/', b'late=1; Path=/dir/deeper',
+                                                     b'late=' + b'x' * 4000])]
+        msg, h = http_response(r, status, hostile=False, extra=extra) if flood else http_response(r, status)
         hostile_any |= h
         if r.randrange(10) == 0 and k < n - 1:
             msg += http_response(r, None)[0]          # pipelined garbage left on a keep-alive connection
@@ -361,7 +372,10 @@ ROBOTS = [b'User-agent: *\nDisallow: /private\n', b'User-agent: wpull\nAllow: /\
           b'User-agent: *\nCrawl-delay: abc\nRequest-rate: 1/0\nRequest-rate: x/y\nVisit-time: 99-xx\n', b'User-agent: *\nDisallow: /*?*$\nAllow: /$\n',
           b'<html><body>not robots</body></html>', b'User-agent: *\nDisallow: ' + b'/a' * 40000 + b'\n', b'\xff\xfeU\x00s\x00e\x00r\x00',
           b'User-agent: *\nRequest-rate: 1/5m 0100-0200\nExpires: never\n', b'User-agent\nDisallow\n:\n::\n', b'\x00' * 100,
-          b'User-agent: *\nDisallow: /%\nDisallow: /%zz\nAllow: /%e9\n', b'Sitemap: http://[\nSitemap:\nSitemap: \xff\n']
+          b'User-agent: *\nDisallow: /%\nDisallow: /%zz\nAllow: /%e9\n', b'Sitemap: http://[\nSitemap:\nSitemap: \xff\n',
+          # records without any Allow / Disallow line (only the non-standard fields), alone and next to ordinary records
+          b'User-agent: *\nCrawl-delay: 10\n', b'User-agent: wpull\nCrawl-delay: 1\n\nUser-agent: *\nDisallow: /x\n',
+          b'User-agent: *\nRequest-rate: 1/5\nVisit-time: 0100-0200\n', b'User-agent: *\n\nUser-agent: wpull\nCrawl-delay: 2\nDisallow:\n']
 
 
 def gen_robots(r):
@@ -396,7 +410,9 @@ DOS_LINES = [b'01-01-15  12:30PM       <DIR>          dir', b'12-31-99  11:59AM 
              b'2015-01-019:2:34 file', b'01-01-15  12:30PM', b'01-01-15', b'13-45-15  25:99PM  12 f', b'01-01-15  12:30XM  1,234 f',
              b'01-01-2015  12:30  1 234 f g h', b'00-00-00  00:00AM 0 z', b'01-01-15  12:30PM  abc f', b'99-99-9999 99:99 <DIR> d',
              b'01/02/2015  03:04 PM    5 f', b'2015.01.01 12:30 5 f', b'01-01-15  12:30PM  <DIR>']
-MLSD_LINES = [b'type=file;size=1234;modify=20150101123000; file.txt', b'type=dir;modify=20150101; dir', b'type=cdir; .', b'Type=FILE;Size=x; f',
+MLSD_LINES = [b'type=file;size=5;modify=20150101123000;UNIX.mode=0644; f.txt', b'type=file;size=5;UNIX.mode=rw-r--r--;unix.owner=0; f.txt',
+              b'type=file;size=5;unix.mode=' + b'7' * 40 + b'; f.txt', b'type=dir;UNIX.mode=0755;UNIX.uid=x;UNIX.gid=\xff; sub',
+              b'type=file;size=1234;modify=20150101123000; file.txt', b'type=dir;modify=20150101; dir', b'type=cdir; .', b'Type=FILE;Size=x; f',
               b'size=; f', b'type=file;modify=99999999999999; f', b'nospace', b'=;=; f', b'type=file;size=-1;modify=2015; f', b'; f',
               b'type=file;modify=20150230120000; f', b'type=file;modify=2015010112300; f', b'type=OS.unix=slink:/x; l', b'type=file;size=1e3; f',
               b'unix.mode=0644;unix.uid=x; f', b'type=file;modify=20150101123000.999; f', b'a=b', b' leading', b'type=file;; f']
@@ -705,6 +721,19 @@ CORPUS_E2E = [
                          'PASV': [H(b'227 Entering Passive Mode (127,0,0,1,{P1},{P2})\r\n')], 'MLSD': [H(b'500 no\r\n')],
                          'LIST': [H(b'150 go\r\n226 done\r\n'), 'CLOSE'], 'RETR': [H(b'150 go\r\n226 done\r\n')]},
              'data': {'LIST': H(b'-rw-r--r-- 1 u g 5 Jan 01 2015 file.txt\r\n'), 'RETR': H(b'hello')}}},
+    # FTP --preserve-permissions on a server with MLSD: the listing facts (UNIX.mode ...) are server-controlled text
+    {'kind': 'e2e', 'proto': 'ftp', 'tag': 'e2e-ftp-mlsd-unix-mode',
+     'args': ['ftp://127.0.0.1:{FTPPORT}/dir/', 'http://ctl:{PORT}/control', '-r', '--tries', '1', '--concurrent', '1', '--timeout', '5', '--no-robots',
+              '--preserve-permissions'],
+     'ftp': {'greeting': H(b'220 hi\r\n'),
+             'by_verb': {'USER': [H(b'331 pw\r\n')], 'PASS': [H(b'230 ok\r\n')], 'TYPE': [H(b'200 T\r\n')], 'SIZE': [H(b'213 5\r\n')],
+                         'PASV': [H(b'227 Entering Passive Mode (127,0,0,1,{P1},{P2})\r\n')], 'MLSD': [H(b'150 go\r\n226 done\r\n')],
+                         'LIST': [H(b'150 go\r\n226 done\r\n')], 'RETR': [H(b'150 go\r\n226 done\r\n')]},
+             'data': {'MLSD': H(b'type=file;size=5;UNIX.mode=rw-r--r--;UNIX.owner=0; file.txt\r\n'
+                                b'type=file;size=5;unix.mode=0644; ok.txt\r\n'
+                                b'type=file;size=5;UNIX.mode=' + b'7' * 40 + b'; big.txt\r\n'
+                                b'type=file;size=5;UNIX.mode=-1;modify=x; neg.txt\r\n'),
+                      'LIST': H(b'-rw-r--r-- 1 u g 5 Jan 01 2015 file.txt\r\n'), 'RETR': H(b'hello')}}},
     # failed robots.txt fetches used to keep their connection checked out: the 7th failure for one host key hung the crawl
     {'kind': 'e2e', 'proto': 'http', 'tag': 'corpus-e2e-robots-connection-leak',
      'args': ['http://raw%d:{RAWPORT}/p' % i for i in range(8)] + ['http://ctl:{PORT}/control', '-r', '-l', '1', '--tries', '1', '--concurrent', '1',
